@@ -93,4 +93,21 @@ theorem bad_trajectory_number_is_an_error {F : Type} (c : C01.Codec F) (qw qx qy
     ∃ e, C01.trajPoseOfFields c [qw, qx, qy, qz, tx, ty, tz] = Except.error e :=
   C01.traj_bad_number_is_an_error c qw qx qy qz tx ty tz bad hm hbad hnb
 
+/-- ... and a record row (gnss, accelerometer, gyroscope, magnetic; the signal rows of wifi and bluetooth go through the same
+  `decodeFields`) one of whose fields its DECLARED type cannot read (the types are those of Gen/RecordSchemas.lean, regenerated
+  from the record classes): the row is an error wherever the field stands -/
+theorem bad_record_field_is_an_error {F : Type} (c : C01.Codec F) (tys : List Gen.RecordSchemas.Ty) (ts dev : Csv.Str)
+    (toks : List Csv.Str) (i : Nat) (hi : i < tys.length) (hlen : tys.length = toks.length)
+    (hbad : C01.decodeVal c (tys[i]) (toks[i]'(hlen ▸ hi)) = none) :
+    ∃ e, C01.decodeRecordRow c tys (ts :: dev :: toks) = Except.error e := by
+  unfold C01.decodeRecordRow
+  dsimp only
+  cases Csv.readInt ts with
+  | none => exact ⟨_, rfl⟩
+  | some t =>
+    obtain ⟨e, he⟩ := C01.decodeFields_bad c tys toks i hi hlen hbad
+    dsimp only
+    rw [he]
+    exact ⟨e, rfl⟩
+
 end Kapture.C16
